@@ -31,6 +31,30 @@ func main() {
 			os.Exit(2)
 		}
 		os.Exit(govc.RunReplayFile(os.Args[2]))
+	case "fold":
+		// govc fold <package path> <spec function>: prove the fold (extensionality) lemma of a `specfold`
+		v, err := govc.Load("/repo", "./...")
+		if err != nil {
+			fmt.Fprintln(os.Stderr, err)
+			os.Exit(2)
+		}
+		dir, _ := os.MkdirTemp("", "govc")
+		defer os.RemoveAll(dir)
+		so := &govc.SolveOpts{Dir: dir, Timeout: 30 * time.Second, FirstTry: 2 * time.Second, Workers: 16, WantModel: true}
+		cf := v.Contracts[os.Args[2]]
+		if cf == nil {
+			fmt.Fprintln(os.Stderr, "no contract file for package", os.Args[2])
+			os.Exit(2)
+		}
+		res := v.ProveFoldLemma(os.Args[3], cf, govc.FloatAbstract, so)
+		res.Dump(os.Stdout, true)
+		if len(os.Args) > 4 {
+			for _, o := range res.Obligations {
+				for _, q := range o.Queries {
+					fmt.Println(q.SMT(res.Unit.W.Prelude()))
+				}
+			}
+		}
 	case "eff":
 		v, err := govc.Load("/repo", "./...")
 		if err != nil {
